@@ -201,8 +201,8 @@ func main() {
 			for _, op := range m.Op {
 				ops = append(ops, op.Op_get_name())
 			}
-			fmt.Printf("CP %d rsize=%d R=%d N=%d M=%d L=%d O=%d wordsize=%d maxword=%d opbits=%d ops=%s rom=%s\n", i, m.Rsize, m.R, m.N, m.M, m.L, m.O, m.WordSize, m.Max_word(), m.Opcodes_bits(),
-				strings.Join(ops, ","), strings.Join(m.Program.Slocs, ","))
+			fmt.Printf("CP %d rsize=%d R=%d N=%d M=%d L=%d O=%d wordsize=%d maxword=%d opbits=%d ops=%s rom=%s name=%s\n", i, m.Rsize, m.R, m.N, m.M, m.L, m.O, m.WordSize, m.Max_word(), m.Opcodes_bits(),
+				strings.Join(ops, ","), strings.Join(m.Program.Slocs, ","), bi.CPNames[i])
 		}
 	case "bmfull":
 		// bmfull "<rsize>;<N>:<M>:<R>:<O>:<op+op+...>,...;I,O,P0,...;bonds" : every module of the machine
